@@ -19,7 +19,7 @@ for d in seeded/*${ONLY:-}*/; do
   tools/try_seed.sh $d $props > /tmp/try/matrix.$name.log 2>&1
   pre=$(grep -c "as required" /tmp/try/matrix.$name.log)
   grep "^check " /tmp/try/matrix.$name.log | while read -r _ p _ code rest; do
-    printf "%s\t%s\t%s\t%s\t%s\n" "$name" "${p%:}" "$code" "$pre/3 preconditions" "$(echo "$rest" | cut -c1-160)" >> $TMP
+    printf "%s\t%s\t%s\t%s\t%s\n" "$name" "${p%:}" "$code" "$pre/3 preconditions" "$(echo "$rest" | tr -d '\r' | cut -c1-160)" >> $TMP
   done
 done
 rm -rf $SNAP
@@ -27,12 +27,12 @@ python3 - "$OUT" "$TMP" <<'PYEOF'
 import sys,os
 out=sys.argv[1]
 tmp=sys.argv[2]
-new=[l for l in open(tmp)]
+new=[l for l in open(tmp,newline="\n")]
 names={l.split("\t")[0] for l in new}
-old=[l for l in open(out)] if os.path.exists(out) else []
+old=[l for l in open(out,newline="\n") if "\t" in l and l[:1] in "CGAr"] if os.path.exists(out) else []
 keep=[l for l in old if l.split("\t")[0] not in names]
 rows=sorted(keep+new)
-open(out,"w").writelines(rows)
+open(out,"w",newline="\n").writelines(rows)
 os.remove(tmp)
 PYEOF
  cat $OUT
